@@ -72,6 +72,16 @@ chk("C10", "field-coverage: StackFrame fields (from the type) classified by a re
     "Trusted: rustc MIR/ADT layout facts; the field classification table (reviewed, one reason per field). Whether top-level locals of the failed input should survive is not decided.",
     "DESIGN.md section 4 C10")
 
+chk("C14", "schema conformance: symbolic evaluation of is_subtype's match arms into first-match decision table + per-arm truth conditions with argument provenance (variance), compared with the preorder schema",
+    "is_subtype is shown to be an instance of a schema (top, bottom, componentwise with stated variance, nominal user types, equality on parameters, mixed constructors false) whose every instance is reflexive and transitive on well-formed error-free types; variance is read off the provenance of recursive-call arguments. A proof by schema, for all types, not an enumeration.",
+    "Trusted: syn parse; the boolean-block evaluator's idiom set (fails closed outside it); the paper argument that the schema implies a preorder. Error types and ill-formed arities excluded as in the property.",
+    "DESIGN.md section 4 C14")
+
+chk("C15", "schema conformance: rows of unify matched against upper-bound rows of the C14 relation; fold shape of unify_all; MIR call-presence for the five combining constructs",
+    "Every Some(X) that unify can return is justified as an upper bound by a row of the subtype schema under the condition it is returned, unify_all is the left fold from bottom, and list/dict/if/try/match inference reach these functions. By induction the combined type is a supertype of every input, and equal inputs return themselves.",
+    "Trusted: syn parse, rustc MIR call graph. How each caller uses the result (hover text) is not decided.",
+    "DESIGN.md section 4 C15")
+
 ENGINES = [
  {"name": "gfacts", "path": "tools/gfacts", "kind_free_text": "rustc_private driver (nightly) dumping the type-checked MIR (CFG, resolved callees, asserts, places with field names) of every function of the garden crate as JSON; run as RUSTC_WORKSPACE_WRAPPER under cargo +nightly check on /repo's current tree"},
  {"name": "gshape", "path": "tools/gshape", "kind_free_text": "syn-2 syntax tree dumper (match arms, patterns, literals, struct initialisers) for table/shape rules"},
